@@ -4,7 +4,7 @@ from collections import Counter
 
 from ..loader import AnalysisError, attr_path, src, walk_no_nested_defs, norm_stmt, call_name
 from ..symx import show, C, is_const
-from ..genabs import (Game, Poly, Undecided, WrongTile, position_cases, model_edges, wrap_column, is_last_row, OWNER, P1, P2, PR, FRESH)
+from ..genabs import (Game, Poly, Undecided, WrongTile, WrongRowCount, position_cases, model_edges, wrap_column, is_last_row, OWNER, P1, P2, PR, FRESH)
 
 EXPLANATION = (
     "Abstract bisimulation between the emitted games and a rule model of Roborta, for all board sizes at once: the "
@@ -105,6 +105,12 @@ class Pairing:
                         except WrongTile as e:
                             pr = (self.where(block), str(e), "the builders read the board only at the tile whose state they build", "another tile's entry",
                                   "%s block %d reads another tile" % (self.gname, b))
+                            if pr[4] not in [q[4] for q in self.problems]:
+                                self.problems.append(pr)
+                            continue
+                        except WrongRowCount as e:
+                            pr = (self.where(block), str(e), "one state per tile in every block", "several entries for one tile",
+                                  "%s block %d several entries per tile" % (self.gname, b))
                             if pr[4] not in [q[4] for q in self.problems]:
                                 self.problems.append(pr)
                             continue
